@@ -353,6 +353,7 @@ type c19PState struct {
 	main       c19Ref
 	kids       []c19Ref
 	events     []c19Outcome
+	raw        []model.EventData // the events as delivered (they carry pointers): re-read at the end of the case
 	termAny    int  // Terminate calls issued while the process could be affected
 	termEarly  int  // ... of which issued before the marker (= TERM disposition installed) was seen
 	killAny    int  // Kill calls with a deadline in the future issued while the process could be affected
@@ -444,6 +445,7 @@ func (r *c19Run) consume(ch <-chan model.Event, stop <-chan struct{}) {
 				r.alien = append(r.alien, name)
 			} else {
 				r.ps[idx].events = append(r.ps[idx].events, o)
+				r.ps[idx].raw = append(r.ps[idx].raw, d)
 			}
 			r.mu.Unlock()
 		case <-stop:
@@ -1058,6 +1060,22 @@ func c19Check(c c19Case) kit.Outcome {
 		if (ev.Exit == nil) == (ev.Sig == nil) {
 			out.Violate("C19/malformed-event", "event for %s carries %s", c19Name(i), ev)
 			continue
+		}
+		// an event keeps saying what it said when it was delivered (a consumer may look at it later)
+		if len(s.raw) > 0 {
+			now := c19Outcome{}
+			if s.raw[0].ExitStatus != nil {
+				v := *s.raw[0].ExitStatus
+				now.Exit = &v
+			}
+			if s.raw[0].Signo != nil {
+				v := *s.raw[0].Signo
+				now.Sig = &v
+			}
+			if now.String() != ev.String() {
+				out.Violate("C19/event-changed-after-delivery", "the termination event of %s (%s) said %q when it was delivered and says %q at the end of the case: its status is shared with later events; history %v",
+					c19Name(i), c.Procs[i].kind(), ev.String(), now.String(), r.hist)
+			}
 		}
 		set := r.allowed(i)
 		if len(set) == 1 {
